@@ -167,8 +167,11 @@ def run(item):
     refa = {d: [refa[d][j] for j in keep] for d in refa}
     impa = impl_atoms(inst)
     pairs, un_ref, un_impl = ch.match(refa, impa, modconst=lambda lab: '@' not in lab)
+    from .c04 import tautology
     for j in un_ref:
         lab = refa['z'][j][2]
+        if refa['z'][j][0] == 'le' and tautology(ch, refa['z'][j][1]):
+            continue        # e.g. x*x >= 0: CasADi folds the relation to `true`; no restriction of the feasible set
         V('row-mismatch:%s' % ('constraint' if '@' in lab else lab.split('[')[0]), lab,
           'no NLP row equals the physical residual divided by its declared scale (constraints) / a constant multiple of it (dynamics)', inst.pts[0])
     mv = model_vars(inst, ch)
